@@ -924,6 +924,57 @@ def _strip_int(e: ast.expr) -> ast.expr:
     return e.args[0] if isinstance(e, ast.Call) and isinstance(e.func, ast.Name) and e.func.id == "int" and len(e.args) == 1 else e
 
 
+def _format_of(fn: ast.FunctionDef, name: str, depth: int = 0) -> Optional[str]:
+    """storage format of a local matrix, if the code establishes it (conversion); None = whatever the caller passed"""
+    vals = [s.value for s in stmts_local(fn) if isinstance(s, ast.Assign) and len(s.targets) == 1 and u(s.targets[0]) == name]
+    if len(vals) != 1 or depth > 3:
+        return None
+    v = vals[0]
+    if isinstance(v, ast.Call):
+        nm = call_name(v)
+        if nm in ("tocsr", "csr_matrix", "csr_array"):
+            return "csr"
+        if nm in ("tocsc", "csc_matrix", "csc_array"):
+            return "csc"
+        if nm == "copy" and isinstance(v.func, ast.Attribute) and isinstance(v.func.value, ast.Name):
+            return _format_of(fn, v.func.value.id, depth + 1)
+    if isinstance(v, ast.Name):
+        return _format_of(fn, v.id, depth + 1)
+    return None
+
+
+def _pattern_source(ctx: Ctx, mod, fn: ast.FunctionDef) -> tuple[str, str]:
+    """names of the arrays holding the row and the column index of every non-zero"""
+    q = GEN
+    asg = [s for s in stmts_local(fn) if isinstance(s, ast.Assign) and len(s.targets) == 1]
+    for s in asg:      # rows, cols, _ = sps.find(X)
+        if isinstance(s.value, ast.Call) and call_name(s.value) == "find" and isinstance(s.targets[0], ast.Tuple) and len(s.targets[0].elts) == 3:
+            return u(s.targets[0].elts[0]), u(s.targets[0].elts[1])
+    for s in asg:      # rows, cols = X.nonzero()
+        if isinstance(s.value, ast.Call) and call_name(s.value) == "nonzero" and isinstance(s.targets[0], ast.Tuple) and len(s.targets[0].elts) == 2:
+            return u(s.targets[0].elts[0]), u(s.targets[0].elts[1])
+    coo = {}
+    for s in asg:      # r = C.row; c = C.col  (C a coo matrix)
+        if isinstance(s.value, ast.Attribute) and s.value.attr in ("row", "col") and isinstance(s.targets[0], ast.Name):
+            coo[s.value.attr] = s.targets[0].id
+    if set(coo) == {"row", "col"}:
+        return coo["row"], coo["col"]
+    # compressed storage: minor = X.indices, major = repeat(arange(n), diff(X.indptr)); which is the row depends on the format of X
+    minor = [(s.targets[0].id, u(s.value.value)) for s in asg if isinstance(s.value, ast.Attribute) and s.value.attr == "indices" and isinstance(s.targets[0], ast.Name)]
+    major = [(s.targets[0].id, s) for s in asg if isinstance(s.value, ast.Call) and call_name(s.value) == "repeat" and "indptr" in u(s.value) and isinstance(s.targets[0], ast.Name)]
+    if len(minor) == 1 and len(major) == 1:
+        mname, X = minor[0]
+        fmt = _format_of(fn, X)
+        ctx.check("R6", fmt is not None, mod, q, major[0][1],
+                  f"the non-zero pattern is read from the compressed storage of `{X}` ({X}.indices / {X}.indptr) but nothing establishes the storage format of `{X}` "
+                  f"(it is the caller's): `{mname}` holds column indices only for csr; for a csc matrix rows and columns are swapped and the permutation of the "
+                  f"TRANSPOSED pattern is returned (format-agnostic readers: sps.find, .nonzero(), .tocoo())", construct=f"{q}: pattern read from compressed storage of known format")
+        if fmt == "csc":
+            return mname, major[0][0]
+        return major[0][0], mname
+    raise Undecided(f"{MO}:{q}: the non-zero pattern (row and column index of every entry) is read in an unrecognised way")
+
+
 def _producer_roles(ctx: Ctx, mod) -> list:
     fn = mod.func(GEN)
     q = GEN
@@ -940,11 +991,7 @@ def _producer_roles(ctx: Ctx, mod) -> list:
 
     def same(x: str, y: str) -> bool:
         return x == y or (x in alias and y in alias)
-    find = [s for s in stmts_local(fn) if isinstance(s, ast.Assign) and isinstance(s.value, ast.Call) and call_name(s.value) == "find"
-            and isinstance(s.targets[0], ast.Tuple) and len(s.targets[0].elts) == 3]
-    if len(find) != 1:
-        raise Undecided(f"{MO}:{q}: non-zero pattern is not read by one `rows, cols, _ = sps.find(...)`")
-    fr, fc = u(find[0].targets[0].elts[0]), u(find[0].targets[0].elts[1])
+    fr, fc = _pattern_source(ctx, mod, fn)
     enc = [n for n in walk_local(fn) if isinstance(n, ast.ListComp) and isinstance(n.elt, ast.Tuple) and len(n.elt.elts) == 2 and len(n.generators) == 1
            and isinstance(n.generators[0].iter, ast.Call) and call_name(n.generators[0].iter) == "zip"]
     if len(enc) != 1:
@@ -970,9 +1017,13 @@ def _producer_roles(ctx: Ctx, mod) -> list:
     # decoding comprehensions
     dec: dict[str, tuple] = {}     # list name -> (side, stmt)
     for s in walk_local(fn):
-        if not (isinstance(s, ast.Assign) and len(s.targets) == 1 and isinstance(s.targets[0], ast.Name) and isinstance(s.value, ast.ListComp)):
+        if not (isinstance(s, ast.Assign) and len(s.targets) == 1 and isinstance(s.targets[0], ast.Name)):
             continue
         lc = s.value
+        while isinstance(lc, ast.Call) and isinstance(lc.func, ast.Name) and lc.func.id in ("sorted", "list", "tuple") and len(lc.args) == 1:
+            lc = lc.args[0]      # order within a block is free: any ordering of the rows / columns of one block keeps it a block
+        if not isinstance(lc, (ast.ListComp, ast.GeneratorExp)):
+            continue
         if len(lc.generators) != 1 or len(lc.generators[0].ifs) != 1 or not isinstance(lc.generators[0].target, ast.Name):
             continue
         gv = lc.generators[0].target.id
@@ -1026,9 +1077,14 @@ def _producer_roles(ctx: Ctx, mod) -> list:
         if c.func.attr == "extend" and isinstance(a0, ast.Name) and a0.id in dec:
             role_of_list.setdefault(tgt, plain if dec[a0.id][0] == "plain" else off[0])
             in_loop.append((tgt, dec[a0.id][2]))
-        elif c.func.attr == "append" and isinstance(a0, ast.Call) and u(a0.func) == "len" and len(a0.args) == 1 and isinstance(a0.args[0], ast.Name) and a0.args[0].id in dec:
-            role_of_list.setdefault(tgt, "sizes")
-            in_loop.append((tgt, dec[a0.args[0].id][2]))
+        else:
+            if c.func.attr == "append" and isinstance(a0, ast.Name):
+                tmp = [s_.value for s_ in walk_local(lp) if isinstance(s_, ast.Assign) and len(s_.targets) == 1 and u(s_.targets[0]) == a0.id]
+                if len(tmp) == 1:
+                    a0 = tmp[0]
+            if c.func.attr == "append" and isinstance(a0, ast.Call) and u(a0.func) == "len" and len(a0.args) == 1 and isinstance(a0.args[0], ast.Name) and a0.args[0].id in dec:
+                role_of_list.setdefault(tgt, "sizes")
+                in_loop.append((tgt, dec[a0.args[0].id][2]))
     roles_found = sorted(set(role_of_list.values()))
     ctx.check("R6", roles_found == ["col", "row", "sizes"] and len(role_of_list) == 3, mod, q, lp,
               f"per component the row list, the column list and the block size must be appended in the same iteration; found {role_of_list}",
@@ -1047,10 +1103,20 @@ def _producer_roles(ctx: Ctx, mod) -> list:
             and apps.get(inv_role.get("sizes")) == "1"
         ctx.check("R6", ok, mod, q, l2, f"an all-zero row must extend the row list, the column list (same index) and the sizes (1) together; found {apps}",
                   construct=f"{q}: all-zero rows extend all three lists")
+    ext = {}
+    for c in [c for c in walk_local(fn) if isinstance(c, ast.Call) and isinstance(c.func, ast.Attribute) and c.func.attr == "extend" and len(c.args) == 1
+              and u(c.func.value) in role_of_list and not any(c is x for x in walk_local(lp))]:
+        ext[u(c.func.value)] = c.args[0]
+    if ext:
+        r_, c_, z_ = (ext.get(inv_role.get(k_)) for k_ in ("row", "col", "sizes"))
+        ok = r_ is not None and c_ is not None and z_ is not None and u(r_) == u(c_) and u(z_).replace(" ", "") in (f"[1]*len({u(r_)})", f"len({u(r_)})*[1]")
+        ctx.check("R6", ok, mod, q, next(iter(ext.values())), f"all-zero rows must extend the row list, the column list (same indices) and the sizes (one 1 per row) together; "
+                  f"found { {k_: u(v_) for k_, v_ in ext.items()} }", construct=f"{q}: all-zero rows extend all three lists")
     # returned triple
     rets = [r for r in walk_local(fn) if isinstance(r, ast.Return) and isinstance(r.value, ast.Tuple) and len(r.value.elts) == 3 and all(isinstance(x, ast.Name) for x in r.value.elts)]
-    if len(rets) != 1:
+    if not rets or len({tuple(x.id for x in r.value.elts) for r in rets}) != 1:
         raise Undecided(f"{MO}:{q}: does not return one triple of names")
+    rets = [rets[-1]]
     roles = []
     for x in rets[0].value.elts:
         vals = [s_.value for s_ in walk_local(fn) if isinstance(s_, ast.Assign) and len(s_.targets) == 1 and u(s_.targets[0]) == x.id]
@@ -1063,17 +1129,17 @@ def _producer_roles(ctx: Ctx, mod) -> list:
         roles.append(rs.pop())
     # single-component shortcut
     names = [x.id for x in rets[0].value.elts]
+    shape_names = {u(x) for x in shp[0].targets[0].elts} if shp else set()
     for iff in [n for n in walk_local(fn) if isinstance(n, ast.If) and "len(" in u(n.test) and "== 1" in u(n.test)]:
         asg = {u(s_.targets[0]): s_.value for s_ in iff.body if isinstance(s_, ast.Assign) and len(s_.targets) == 1}
         if not set(names) <= set(asg):
             continue
         perms = [asg[names[i]] for i in range(3) if roles[i] in ("row", "col")]
-        ok = all(isinstance(v, ast.Call) and call_name(v) == "arange" and len(v.args) == 1 and (u(v.args[0]) in alias or (shp and u(v.args[0]) in {u(x) for x in shp[0].targets[0].elts}))
-                 for v in perms)
+        ok = all(isinstance(v, ast.Call) and call_name(v) == "arange" and len(v.args) == 1 and (u(v.args[0]) in alias or u(v.args[0]) in shape_names) for v in perms)
         ctx.check("R6", ok, mod, q, iff, "a single component means the matrix is one block: both permutations are the identity arange(n)", construct=f"{q}: shortcut permutations")
         sz = asg[names[roles.index("sizes")]]
         ok = isinstance(sz, ast.Call) and call_name(sz) in ("array", "asarray") and sz.args and isinstance(sz.args[0], ast.List) and len(sz.args[0].elts) == 1 \
-            and (u(sz.args[0].elts[0]) in alias or (shp and u(sz.args[0].elts[0]) in {u(x) for x in shp[0].targets[0].elts}))
+            and (u(sz.args[0].elts[0]) in alias or u(sz.args[0].elts[0]) in shape_names)
         ctx.check("R6", ok, mod, q, iff, f"a single component is one block of size n; found `{u(sz)[:50]}`", construct=f"{q}: shortcut block size")
     ctx.sample({"rule": "R6", "encoding": {"plain": plain, "offset": off[0], "by": OFF}, "lists": role_of_list, "returned_roles": roles})
     return roles
@@ -1105,6 +1171,16 @@ def _wshow(word) -> str:
     return " ".join(one(a) for a in word) or "I"
 
 
+def _data_store(s_: ast.stmt, env_: dict) -> Optional[str]:
+    """name of the matrix whose `.data` is assigned by the statement"""
+    t = s_.targets[0] if isinstance(s_, ast.Assign) else s_.target
+    while isinstance(t, ast.Subscript):
+        t = t.value
+    if isinstance(t, ast.Attribute) and t.attr == "data" and isinstance(t.value, ast.Name) and t.value.id in env_:
+        return t.value.id
+    return None
+
+
 def _check_permuted(ctx: Ctx, mod, prod_roles: list) -> None:
     fn = mod.func(APPLY)
     q = APPLY
@@ -1123,17 +1199,54 @@ def _check_permuted(ctx: Ctx, mod, prod_roles: list) -> None:
     def full(sl) -> bool:
         return isinstance(sl, ast.Slice) and sl.lower is None and sl.upper is None and sl.step is None
 
-    def W(e: ast.expr) -> list:
+    idb_params = [x.arg for x in mod.func(IDB).args.args]
+
+    def bind(fnname: str, fparams: list, call: ast.Call) -> dict:
+        out = {}
+        for i_, a_ in enumerate(call.args):
+            if isinstance(a_, ast.Starred) or i_ >= len(fparams):
+                raise Undecided(f"{MO}:{q}: arguments of {fnname}")
+            out[fparams[i_]] = a_
+        for k_ in call.keywords:
+            if k_.arg is None or k_.arg in out:
+                raise Undecided(f"{MO}:{q}: arguments of {fnname}")
+            out[k_.arg] = k_.value
+        return out
+
+    def run_body(stmts: list, env_: dict, depth: int):
+        for s_ in stmts:
+            if isinstance(s_, ast.Assign) and len(s_.targets) == 1 and isinstance(s_.targets[0], ast.Name):
+                env_[s_.targets[0].id] = W(s_.value, env_, depth)
+            elif isinstance(s_, ast.AnnAssign) and isinstance(s_.target, ast.Name) and s_.value is not None:
+                env_[s_.target.id] = W(s_.value, env_, depth)
+            elif isinstance(s_, ast.Return) and s_.value is not None:
+                return W(s_.value, env_, depth)
+            elif isinstance(s_, ast.Expr):
+                c_ = s_.value
+                if isinstance(c_, ast.Constant) or (isinstance(c_, ast.Call) and isinstance(c_.func, ast.Attribute)
+                                                   and c_.func.attr in ("eliminate_zeros", "sort_indices", "sum_duplicates", "check_format", "prune")):
+                    continue       # storage clean-up: the represented matrix is unchanged
+                raise Undecided(f"{MO}:{q}: statement `{u(s_)[:50]}`")
+            elif isinstance(s_, (ast.Assign, ast.AugAssign)) and _data_store(s_, env_) is not None:
+                tgt_ = _data_store(s_, env_)
+                ctx.check("R1", False, mod, q, s_, f"the stored entries of `{tgt_}` ({_wshow(_wred(env_[tgt_]))}) are overwritten in place (`{u(s_)[:70]}`): what is returned is "
+                          f"no longer the matrix the permutation algebra produced (an absolute threshold or rescaling of the inverse is not scale invariant)",
+                          construct=f"{q}: entries of a matrix of the chain are overwritten")
+            else:
+                raise Undecided(f"{MO}:{q}: statement `{u(s_)[:50]}`")
+        return None
+
+    def W(e: ast.expr, env_: dict, depth: int = 0) -> list:
         if isinstance(e, ast.Name):
-            if e.id in env:
-                return env[e.id]
+            if e.id in env_:
+                return env_[e.id]
             raise Undecided(f"{MO}:{q}: `{e.id}` is not a matrix / slicer known to the analysis")
         if isinstance(e, ast.Attribute) and e.attr == "T":
-            return _wt(W(e.value))
+            return _wt(W(e.value, env_, depth))
         if isinstance(e, ast.BinOp) and isinstance(e.op, (ast.MatMult, ast.Mult)):
-            return W(e.left) + W(e.right)
+            return W(e.left, env_, depth) + W(e.right, env_, depth)
         if isinstance(e, ast.Subscript):
-            base, sl = W(e.value), e.slice
+            base, sl = W(e.value, env_, depth), e.slice
             if isinstance(sl, ast.Tuple) and len(sl.elts) == 2:
                 r_, c_ = sl.elts
                 out = list(base)
@@ -1157,31 +1270,36 @@ def _check_permuted(ctx: Ctx, mod, prod_roles: list) -> None:
                     return [("G", perm(kws["range_indices"]), -1)]
                 raise Undecided(f"{MO}:{q}: slicer `{u(e)[:50]}`")
             if nm == IDB:
-                if len(e.args) < 2:
+                bd_ = bind(IDB, idb_params, e)
+                if idb_params[0] not in bd_ or idb_params[1] not in bd_:
                     raise Undecided(f"{MO}:{q}: arguments of {IDB}")
-                w = W(e.args[0])
-                inv_calls.append((w, e.args[1], e))
+                w = W(bd_[idb_params[0]], env_, depth)
+                inv_calls.append((w, bd_[idb_params[1]], e))
                 return _winv(w)
             if isinstance(e.func, ast.Attribute) and nm in ("transpose",) and not e.args:
-                return _wt(W(e.func.value))
+                return _wt(W(e.func.value, env_, depth))
             if isinstance(e.func, ast.Attribute) and nm in ("tocsr", "tocsc", "copy", "tocoo") and not e.args:
-                return W(e.func.value)
+                return W(e.func.value, env_, depth)
             if isinstance(e.func, ast.Attribute) and nm == "dot" and len(e.args) == 1:
-                return W(e.func.value) + W(e.args[0])
+                return W(e.func.value, env_, depth) + W(e.args[0], env_, depth)
             if nm in ("csr_matrix", "csc_matrix") and len(e.args) == 1:
-                return W(e.args[0])
+                return W(e.args[0], env_, depth)
+            if isinstance(e.func, ast.Name) and depth < 2:
+                helper = mod.get(e.func.id)
+                if isinstance(helper, ast.FunctionDef) and not helper.args.vararg and not helper.args.kwarg:
+                    hp = [x.arg for x in helper.args.args]
+                    bd_ = bind(helper.name, hp, e)
+                    if set(bd_) != set(hp):
+                        raise Undecided(f"{MO}:{q}: helper {helper.name} called without all its arguments")
+                    res_ = run_body(body_nodoc(helper), {k_: W(v_, env_, depth) for k_, v_ in bd_.items()}, depth + 1)
+                    if res_ is None:
+                        raise Undecided(f"{MO}:{q}: helper {helper.name} returns nothing")
+                    return res_
         raise Undecided(f"{MO}:{q}: cannot translate `{u(e)[:60]}`")
 
-    result = None
-    for s in body_nodoc(fn):
-        if isinstance(s, ast.Assign) and len(s.targets) == 1 and isinstance(s.targets[0], ast.Name):
-            env[s.targets[0].id] = W(s.value)
-        elif isinstance(s, ast.Return) and s.value is not None:
-            result = W(s.value)
-        elif isinstance(s, ast.Expr):
-            continue
-        else:
-            raise Undecided(f"{MO}:{q}: statement `{u(s)[:50]}`")
+    body = body_nodoc(fn)
+    # the sizes argument is recorded as an expression of the outer function: resolve through the statements
+    result = run_body(body, env, 0)
     if result is None or len(inv_calls) != 1:
         raise AnchorError(f"{MO}:{q}: block-diagonal inversion / return not found")
     bd, sizes_arg, call = inv_calls[0]
@@ -1258,6 +1376,10 @@ MUTANTS = [
     _m("numba-nnz-from-output-offsets", "            idx_nnz = np.searchsorted(indices, idx_blocks).astype(np.int32)\n", "            idx_nnz = np.searchsorted(indices, idx_inv_blocks).astype(np.int32)\n", "R4"),
     dict(name="seed-csc-line-counts-per-row", rule="R4", control=False, edits=[
         dict(file=MO, old="            col_reps = a.indptr[1 : a.indptr.size] - a.indptr[0 : a.indptr.size - 1]\n            # cols are in fact a vector", new="            col_reps = a.getnnz(axis=1)\n            # cols are in fact a vector")]),
+    _m("seed-pattern-from-compressed-storage", "    rows, cols, _ = sps.find(A_clean)\n",
+       "    cols = A_clean.indices\n    rows = np.repeat(np.arange(num_rows, dtype=cols.dtype), np.diff(A_clean.indptr))\n", "R6"),
+    _m("seed-absolute-threshold-on-inverse", "    # Eliminate zero entries.\n    inv_A.eliminate_zeros()\n",
+       "    inv_A.data[np.abs(inv_A.data) < np.finfo(float).eps] = 0.0\n    inv_A.eliminate_zeros()\n", "R1"),
     # R5 dispatch
     dict(name="kernel-gets-unfiltered-sizes", rule="R5", control=False, edits=[
         dict(file=MO, old="    s = s[s > 0]\n", new="    s_pos = s[s > 0]\n"),
